@@ -20,6 +20,7 @@ type Clause struct {
 	Site string // for call-site asserts: callee#k
 	Args []string
 	Mode string // "", "int", "bv": only visible in that mode
+	bound bool  // an assert clause matched a call site
 	WF    bool  // data well-formedness precondition: checked by full-mode callers, assumed by thin-mode callers
 	Local bool  // checked in the function itself, not exported to callers (may mention locals)
 	File string
